@@ -149,7 +149,8 @@ PROPS["C08"] = dict(
 )
 
 verus_unit("polyv", "poly", ["C20"], ["polynom::add", "polynom::sub", "polynom::mul", "polynom::mul_by_scalar", "polynom::degree_of", "polynom::remove_leading_zeros", "utils::fill_power_series",
-           "polynom::div (quotient * divisor + remainder == dividend coefficient by coefficient, remainder below the divisor degree; assumes five field laws)"])
+           "polynom::div (quotient * divisor + remainder == dividend coefficient by coefficient, remainder below the divisor degree; assumes five field laws)",
+           "polynom::poly_from_roots / fill_zero_roots (every list of roots: the coefficients are those of the product of the (x - root) factors, built by the textbook rule q[j] = p[j-1] - p[j] * root; no algebraic law used)"])
 
 native_unit("field_native", "winter-math", "math", "native/field_bounded.rs", ["C07", "C08"],
             ["f128 / f64 / f62 BaseElement: new, + - * / (and the assigning forms), neg, double, square, cube, inv, exp, ==, as_int, to_bytes / read_from, get_root_of_unity", "QuadExtension / CubeExtension over the three base fields: * (and *=), square, + - neg, double, mul_base, inv, /, conjugate, exp, to_bytes / read_from, slice_as_base_elements / slice_from_base_elements"],
